@@ -3,7 +3,7 @@ from tools.extract import Unit, Rw
 from tools.krun import Harness
 
 PROPERTY = "C14"
-PRELUDE = ["../common/base.rs", "prelude.rs", "streamer_specs.rs", "restore_stubs.rs", "merge_stubs.rs"]
+PRELUDE = ["../common/base.rs", "prelude.rs", "streamer_specs.rs", "restore_stubs.rs", "merge_stubs.rs", "write_stubs.rs"]
 T = "crates/core/src/blob/tree.rs"
 R_ERR = Rw("", "verr()", count=None, kind="err", optional=True, why="RusticError construction (kind/message/context dropped)")
 R_DISCARD = Rw(r"(?m)^(\s*)_ = ", r"\1let _ = ", regex=True, count=None, optional=True, why="`_ = e;` -> `let _ = e;`")
@@ -174,8 +174,54 @@ UNITS += [
 ]
 
 KANI = []
+UNITS += [
+    # the innermost task of restore_contents: allocate the file on first touch, then write one blob at its offset
+    Unit(name="restore_write_blob", file=RS, kind="block", within="fn restore_contents<S: Open>(",
+         anchor="let path = &filenames[file_idx];", block_end="p.inc(size);",
+         block_sig="fn restore_write_blob(dest: &VDest, filenames: &Vec<DestPath>, sizes: &mut Vec<u64>, file_idx: usize, start: u64, data: BytesW, is_sparse: bool, size: u64, fs: &mut DestFs, Ghost(planned): Ghost<Seq<u64>>)",
+         block_tail="",
+         functions=["commands::restore::restore_contents (per-destination task: allocate on first touch, write the blob at its offset; sparse skip)"],
+         rewrites=[
+             Rw("let mut sizes_guard = sizes.lock().unwrap();", "let sizes_guard = sizes;", why="Mutex guard -> the guarded vector itself (mutual exclusion ASSUMED)"),
+             Rw("sizes_guard[file_idx] = 0;", "sizes_guard.set(file_idx, 0);", why="IndexMut on Vec -> Vec::set"),
+             Rw("drop(sizes_guard);", "", why="guard release: no effect on the sequential model"),
+             Rw(r"dest\.set_length\(path, ([^;]*?)\)\.unwrap\(\);", r"dest.vset_length(path, \1, fs);", regex=True, why="LocalDestination::set_length + unwrap -> ghost file-system stub (failure panics the worker)"),
+             Rw(r"dest\.write_at\(path, ([^;]*?), &data\)\.unwrap\(\);", r"dest.vwrite_at(path, \1, &data, fs);", regex=True, why="LocalDestination::write_at + unwrap -> ghost file-system stub"),
+             Rw(r"dest\s*\.read_at\(path, start, size\)\s*\.is_ok_and\(\|old\| old\.iter\(\)\.all\(\|&b\| b == 0\)\)", "dest.vreads_as_zeros(path, start, size, fs)", regex=True, why="read_at + all-bytes-zero test (closure) -> stub: true only if the range reads as zeros"),
+         ],
+         contract="""
+    requires
+        file_idx < filenames@.len(),
+        alloc_state(old(sizes)@, planned, filenames@, *old(fs)),
+        size == data.data@.len(),
+        start + data.data@.len() <= planned[file_idx as int],      // the plan places the blob inside the file (add_file_blobs)
+        is_sparse ==> all_zero(data.data@),                         // established by the statement in front (unit sparse_decision)
+    ensures
+        alloc_state(final(sizes)@, planned, filenames@, *final(fs)),
+        // THE property of this step: afterwards the file holds the blob's bytes at the blob's offset ...
+        /*@blob_bytes_are_in_place*/ fcontent(*final(fs), filenames@[file_idx as int].key@).subrange(start as int, start + data.data@.len()) =~= data.data@,
+        /*@file_has_planned_length*/ fcontent(*final(fs), filenames@[file_idx as int].key@).len() == planned[file_idx as int],
+        // ... nothing else in this file changed (bytes matched in place stay) ...
+        /*@rest_of_file_kept*/ forall|i: int| 0 <= i < planned[file_idx as int] && i < fcontent(*old(fs), filenames@[file_idx as int].key@).len() && !(start <= i < start + data.data@.len())
+            ==> fcontent(*final(fs), filenames@[file_idx as int].key@)[i] == fcontent(*old(fs), filenames@[file_idx as int].key@)[i],
+        // ... and no other path was touched
+        /*@other_files_untouched*/ forall|k: int| k != filenames@[file_idx as int].key@ ==> (final(fs).files@.dom().contains(k) == old(fs).files@.dom().contains(k)) && fcontent(*final(fs), k) == fcontent(*old(fs), k),
+"""),
+    Unit(name="sparse_decision", file=RS, kind="block", within="fn restore_contents<S: Open>(",
+         anchor="let is_sparse = match sparse {", block_end="@matching_brace",
+         block_sig="fn sparse_decision(sparse: SparseRestore, data: &BytesW) -> (r: bool)",
+         block_tail="                        is_sparse",
+         functions=["commands::restore::restore_contents (decision to skip the write of a blob)"],
+         rewrites=[Rw("data.iter().all(|&b| b == 0)", "vbytes_all_zero(data)", why="iterator all() over the blob bytes -> stub with the same meaning")],
+         contract="""
+    ensures /*@only_all_zero_blobs_are_sparse*/ r ==> all_zero(data.data@),
+"""),
+    Unit(name="SparseRestore", file=RS, kind="type", anchor="pub enum SparseRestore {", attrs="#[derive(Clone, Copy)]",
+         rewrites=[Rw("    #[default]\n", "\n", why="derive(Default) helper attribute dropped with the derive")]),
+]
+
 META = {"not_covered": [
-    "restore_contents (threads), set_metadata, the closure process_node of collect_and_prepare, sparse files, LocalDestination (syscalls): file-system state",
+    "restore_contents outside its per-destination write task (thread pool, reading/decrypting the pack range, the unwrap()s), set_metadata, the closure process_node of collect_and_prepare, LocalDestination (syscalls; set_length/write_at/read_at are ASSUMED to behave as ftruncate/pwrite/pread)",
     "walkdir order (ascending by path, component-wise) and NodeStreamer order are ASSUMED sorted in the merge unit",
     "LocalDestination::path joining the streamed relative path onto the destination (std Path::join of a confined relative path)",
     "is_plain_name itself (assumed to decide 'one normal component' per std::path::Path::components)",
